@@ -126,6 +126,12 @@ def check(ck):
     ck.ob(R2, ru.key(None, "replace"), oku, "update() replaces the field on a copy" if oku else
           "RecursiveContext.update no longer sets result[key] = value on a copy", ru.where())
 
+    ic_r = FA(ck, "context.InvocationContext.update_recursive")
+    ic_l = FA(ck, "context.InvocationContext.update_local")
+    okr = any(A.norm(r.value) == "InvocationContext(self.recursive.update(key, value), self.local)" for r in ic_r.returns())
+    okl = any(A.norm(r.value) == "InvocationContext(self.recursive, self.local.update(key, value))" for r in ic_l.returns())
+    ck.ob(R2, ic_r.key(None, "pure"), okr and okl, "context updates build a new context and touch only their own scope" if okr and okl else
+          "update_recursive / update_local no longer return a new context that changes only their own scope", ic_r.where())
     # ---- R3
     sf = rl.one(rl.calls("StackFrame"), "StackFrame(...) construction")
     okf = len(sf.args) >= 3 and A.norm(sf.args[2]) == "context.recursive" and A.norm(sf.args[0]) == "fn_reference_with_args"
